@@ -69,8 +69,23 @@ class Prop:
         from props.C12 import PROP as P12
         yield from P12.tree_descs(tier, rng)
 
+    def fs_descs(self, tier, rng):
+        """FileSystemTree with its own class mappers (fs.py): directories, files (int size, float mdate), one entry
+        added twice (a clone)"""
+        univ = ["D:src", "D:docs", "f:a.py:120:1700000000.5", "f:b.txt:0:1.25", "f:\u00fc.md:7:1234567.875", "D:empty", "f:a.py:120:1700000000.5"]
+        shapes = [s for n in range(0, 5) for s in H.forests(n)] if tier == "quick" else [s for n in range(0, 6) for s in H.forests(n)]
+        for j, shape in enumerate(shapes):
+            for _ in range(1 if tier == "quick" else 2):
+                k = rng.randint(2, len(univ))
+                nodes = B.shape_to_nodes(shape, lambda i, d, s: (rng.randrange(k), None, rng.choice([None, None, None, "id1", 7])))
+                td = dict(typed=False, univ=univ, nodes=nodes, calc=None, mapper="fs", km=rng.choice(KMS), vm=rng.choice(["true", "false"]),
+                          meta=rng.choice([None, {"root": "/tmp/x"}]))
+                if valid_desc(td):
+                    yield td
+
     def descs(self, tier, rng):
         yield from CORPUS
+        yield from self.fs_descs(tier, rng)
         combos = [(k, v) for k in KMS for v in VMS]
         i = 0
         for td in self.tree_descs(tier, rng):
@@ -229,7 +244,8 @@ class Prop:
         for n in B.all_nodes(tree._root):
             if isinstance(n._data, str):
                 strings.add(n._data)
-        coq = (f"CRound {S.coq_sopts(desc, tree, U)} {S.coq_lenv(typed, ms, strings, hashes if doc is not None else [])} "
+        names = S.loaded_names(t0) if ms == "fs" and doc is not None and not isinstance(t0, Exception) else ()
+        coq = (f"CRound {S.coq_sopts(desc, tree, U)} {S.coq_lenv(typed, ms, strings, hashes if doc is not None else [], names)} "
                f"{H.coq_forest(tree._root, U)}")
         nodes = (doc or {}).get("nodes", [])
         refs = sum(1 for e in nodes if isinstance(e[1], int))
@@ -267,6 +283,9 @@ CORPUS = [
        km="custom", vm="custom"),
     # D40 (known): identity-hashed data, clone of another kind
     _d(True, ["p:1", "s:y"], [[0, "a", None, []], [1, "a", None, [[0, "b", None, []]]]]),
+    # FileSystemTree: a file entry cloned below two directories, explicit id, custom key map
+    dict(typed=False, univ=["D:src", "f:a.py:120:1700000000.5", "D:docs"], nodes=[[0, None, None, [[1, None, None, []]]], [2, None, "docs-id", [[1, None, None, []]]]],
+         km="custom", vm="true", mapper="fs", meta={"root": "/tmp/x"}, calc=None),
     # unicode, falsy explicit ids
     _d(False, ["s:\u00e4\u20ac\U0001f600", "e:1", "s:z"], [[0, None, 0, [[1, None, "", []]]], [2, None, None, [[0, None, 0, []]]]], km="custom", vm="custom",
        meta={"\u00fc": ["\u20ac"]}),
